@@ -424,6 +424,12 @@ class FnWiring:
             return self.merge(outs) if outs else None
         if isinstance(st, (ast.While, ast.For)):
             cur = _copy_env(env)
+            # `flag = True; while flag:` - the body runs at least once (the do-while idiom): the state before the loop is not a state after it
+            entered = False
+            if isinstance(st, ast.While) and isinstance(st.test, ast.Name) and st.test.id in env:
+                vals = env[st.test.id]
+                entered = bool(vals) and all(d[0] == "const" and bool(d[1]) for d in vals if isinstance(d, tuple) and len(d) == 2) and all(isinstance(d, tuple) and len(d) == 2 and d[0] == "const" for d in vals)
+            rounds = []
             for _ in range(4):
                 e2 = _copy_env(cur)
                 if isinstance(st, ast.While):
@@ -437,6 +443,7 @@ class FnWiring:
                 self._loop_exits.append([])
                 out = self.block(st.body, e2, guards + (("loop", st.lineno, True, st),))
                 exits = self._loop_exits.pop()
+                rounds = ([out] if out is not None else []) + [x for kind, x in exits if kind == "continue"]     # (the last round runs on the saturated state and subsumes the earlier ones)
                 nxt = self.merge([cur] + ([out] if out is not None else []) + [x for kind, x in exits if kind == "continue"])
                 # a count that grows in the loop saturates: 'k+' = k or more calls so far on this path
                 for k_, v_ in list(nxt.get("$cnt", {}).items()):
@@ -451,7 +458,11 @@ class FnWiring:
                 if nxt == cur:
                     break
                 cur = nxt
-            after = self.merge([cur] + [x for kind, x in exits if kind == "break"])
+            if entered:
+                tail = rounds + [x for kind, x in exits if kind == "break"]
+                after = self.merge(tail) if tail else None
+            else:
+                after = self.merge([cur] + [x for kind, x in exits if kind == "break"])
             # `while True` loops are left only through break / return
             if isinstance(st, ast.While) and isinstance(st.test, ast.Constant) and st.test.value is True:
                 br = [x for kind, x in exits if kind == "break"]
